@@ -47,8 +47,17 @@ static void whole_res(int res, int maxd, int origin_stride) {
     }
     int16_t *d = malloc((size_t)g.n * 2);
     int32_t *q = malloc((size_t)g.n * 4);
+    int32_t taken = 0;
     for (int32_t i = 0; i < g.n; i++) {
-        if (!VF_MINE(i / origin_stride) || i % origin_stride) continue;
+        if (origin_stride > 0) {
+            if (i % origin_stride) continue;
+        } else {
+            /* sampled origins: every (-stride)-th cell of the globe, and a 12x denser sample on the twelve pentagon base
+             * cells (the unfolding across a pentagon depends on the origin's position inside that base cell) */
+            int onpent = ref_is_pent_bc((int)((g.cells[i] >> 45) & 127));
+            if (i % -origin_stride && !(onpent && i % (-origin_stride / 12 | 1) == 0)) continue;
+        }
+        if (!VF_MINE(taken++)) continue;
         vf_resgraph_bfs(&g, i, d, q);
         vf_case("origin %016" PRIx64 " %d", g.cells[i], maxd);
         if (!VF_GUARD()) {
@@ -213,6 +222,10 @@ static void run(void) {
     whole_res(2, -1, 1);
     if (VF.thorough) whole_res(3, 25, 1);
     else whole_res(3, 12, 4);
+    /* every target on the globe from sampled origins at res 4 (thorough: denser, and res 5): distances on the scale of a
+     * base cell, where an unfolding across a pentagon can succeed with a value that is not the shortest way round */
+    whole_res(4, -1, VF_T(-600, -60));
+    if (VF.thorough) whole_res(5, -1, -4200);
     /* pentagon neighbourhoods at every resolution */
     H3Index seeds[600];
     int64_t szR;
